@@ -44,9 +44,9 @@ ASSUMPTIONS = ["attribute names are unique along the inheritance chain (a subcla
                "attribute; then only the most derived one is visible to the generated code)",
                "CPython 3.12, LP64"]
 
-FX = {"lookup": os.environ.get("C29_FX_LOOKUP", "0"),   # module-level __cinit__/__reduce__ ignored
-      "ptr": os.environ.get("C29_FX_PTR", "0"),         # pointer members are not picklable
-      "pad": os.environ.get("C29_FX_PAD", "0")}         # checksum padding repaired
+FX = {"lookup": os.environ.get("C29_FX_LOOKUP", "1"),   # module-level __cinit__/__reduce__ ignored
+      "ptr": os.environ.get("C29_FX_PTR", "1"),         # pointer members are not picklable
+      "pad": os.environ.get("C29_FX_PAD", "1")}         # checksum padding repaired
 
 
 def flags():
@@ -240,7 +240,7 @@ def doc_rule(c):
     if any(k.reduce or k.getstate for k in ch):
         return "ANY"
     if c.auto is False:
-        return "TE" if all(doc_rule_static(k) != "RT" for k in ch[1:]) else "ANY"
+        return "ANY"        # CPython's default reduce decides (an attribute-less type is picklable)
     return doc_rule_static(c)
 
 
@@ -634,7 +634,8 @@ def pick_values(rng, c, mode):
         elif mode == "allnone":
             vf[n] = vs[0] if TYPES[t][1] == "o" else rng.choice(vs)
         else:
-            vf[n] = rng.choice(vs)
+            # a user __reduce__ that passes the state as constructor argument cannot express cycles
+            vf[n] = rng.choice(vs if doc_rule(c) != "ANY" else [v for v in vs if "SELF" not in v])
     return vf
 
 
@@ -668,7 +669,7 @@ def run(ctx):
     rng = ctx.rng
     model = ctx.model("pickle")
     fl = flags()
-    nmod, nfam = (2, 11) if quick else (8, 16)
+    nmod, nfam = (2, 11) if quick else (14, 18)
     forced_all = ["cinit", "ptr", "struct", "structT", "off", "reduce", "reduce_ex", "getstate", "charp",
                   "structp", "offroot", "off"]
     mods = []
@@ -929,7 +930,7 @@ def crafted_states(ctx, model, allmods, vals, fl):
         qs.append("unpickle %s 00 012 %s %s %d %d %s" % (fl, hash_table([names]), enc_hier(c, ids), pysub, chk, s))
     mres = model.batch(qs)
     ERRMAP = {"PickleError": "PickleError", "IndexError": "IndexError", "NoDictError": "AttributeError",
-              "DictUpdateError": ("TypeError", "ValueError")}
+              "DictUpdateError": ("TypeError", "ValueError", "AttributeError")}
     for mt, r, m, q in zip(meta, res, mres, qs):
         (mn, c, ids, pysub, tag, chk, st, names) = mt
         inp = {"module": mn, "class": c.name, "pysub": pysub, "tag": tag, "chk": chk, "state": st,
